@@ -161,3 +161,19 @@ package eventloop
 //@   ensures [registered-with-its-options] el.handlers[traceev(reg, 3, old(tracelen(reg)))][traceat(reg, 0, old(tracelen(reg)))].callback != nil && (el.handlers[traceev(reg, 3, old(tracelen(reg)))][traceat(reg, 0, old(tracelen(reg)))].opts.runInAddEvent ? 1 : 0) == traceat(reg, 1, old(tracelen(reg))) && (el.handlers[traceev(reg, 3, old(tracelen(reg)))][traceat(reg, 0, old(tracelen(reg)))].opts.priority ? 1 : 0) == traceat(reg, 2, old(tracelen(reg)))
 //@   ensures [free-or-new-slot] traceat(reg, 0, old(tracelen(reg))) < old(len(el.handlers[now(traceev(reg, 3, old(tracelen(reg))))])) ? (old(el.handlers[now(traceev(reg, 3, old(tracelen(reg))))][now(traceat(reg, 0, old(tracelen(reg))))].callback) == nil && len(el.handlers[traceev(reg, 3, old(tracelen(reg)))]) == old(len(el.handlers[now(traceev(reg, 3, old(tracelen(reg))))]))) : (traceat(reg, 0, old(tracelen(reg))) == old(len(el.handlers[now(traceev(reg, 3, old(tracelen(reg))))])) && len(el.handlers[traceev(reg, 3, old(tracelen(reg)))]) == old(len(el.handlers[now(traceev(reg, 3, old(tracelen(reg))))])) + 1)
 //@   ensures [others-kept] forall j int :: {el.handlers[traceev(reg, 3, old(tracelen(reg)))][j]} 0 <= j && j < old(len(el.handlers[now(traceev(reg, 3, old(tracelen(reg))))])) && j != traceat(reg, 0, old(tracelen(reg))) ==> el.handlers[traceev(reg, 3, old(tracelen(reg)))][j] == old(el.handlers[now(traceev(reg, 3, old(tracelen(reg))))][now(j)])
+
+// ---- the consumer step (C14: "events are handled in the order added, each exactly once").
+// Tick takes exactly the front event off the queue (the rest keeps its order, pop contract)
+// and hands it to processEvent exactly once (ghost trace `proc`), or starts a ticker if it is
+// the internal ticker-start marker; with an empty queue it does nothing. Run's loop body is
+// the same step (select on the ready channel / context is outside the model).
+//@ func (*EventLoop).startTicker
+//@   trusted starts the ticker goroutine (go statement, context); touches no queue or handler state
+//@ func (*EventLoop).Tick property C14
+//@   opt callbacks trace
+//@   requires qwf(&el.eventQ) && wdisj(el) && (qlen(&el.eventQ) > 0 ==> qat(&el.eventQ, 0) != nil)
+//@   ghost at call processEvent :: emit proc(op1)
+//@   ensures [empty-does-nothing] old(qlen(&el.eventQ)) == 0 ==> !result && tracelen(proc) == old(tracelen(proc)) && tracelen(cb) == old(tracelen(cb))
+//@   ensures [takes-the-front] old(qlen(&el.eventQ)) > 0 ==> result && (tracelen(proc) == old(tracelen(proc)) + 1 && traceev(proc, 0, old(tracelen(proc))) == old(qat(&el.eventQ, 0)) || tracelen(proc) == old(tracelen(proc)) && istype(old(qat(&el.eventQ, 0)), startTickerEvent))
+//@   ensures [at-most-one] tracelen(proc) <= old(tracelen(proc)) + 1
+//@   opt noframe true
